@@ -9,6 +9,9 @@ CLAIMED = {
  "C06": ("route table extraction from main.main SSA + reachability + guard-fact dataflow per (route, protected sink); reviewed mask table; CSRF / deny-list / CA-separation dominance rules",
          "For every service-mux route extracted at check time and every protected sink reachable from it, the credential fact required by the route's kind dominates the sink on all paths; admission masks equal a reviewed reference; every success return of checkAuth is preceded by the CSRF test; keymaster-signed chains pass the deny list and the role-CA separation. Structural, all paths, current source.",
          "Sink table and route-kind table are part of the trusted base (keyed by resolved objects, one reason each); new routes default to the strictest kind. Trusts crypto/tls and net/http.", "DESIGN.md §3 C06"),
+ "C04": ("who-may-call rules for verification APIs, producer/consumer agreement on kind discriminators (struct tags and constants), dominance of honour points by kind / issuer / audience / not-before / expiry tests",
+         "For each of the five JWTClaims consumers: verification cannot be skipped, only published keys and their asymmetric algorithms are accepted, every honour point is dominated by the kind test (whose (json key, constant) pair no other producer emits), by issuer/audience/nbf tests where required, and by a comparison of the signed expiry with the clock. All paths, current source.",
+         "Trusts go-jose for signatures and algorithm enforcement. Honour points are success returns, minting calls, identity lookups and response bodies after verification.", "DESIGN.md §3 C04"),
  "C05": ("upgrade-site analysis: level-operand shape, verifier-success dominance with role/provenance of the user operand, subject binding of the re-signed cookie, consumption of one-time values",
          "Every site that raises or creates a session level: the level operand is the authenticated level OR constant bits; each added bit is dominated on all paths by its verifier's success edge applied to the authenticated user (or a record bound to that user); the re-signed cookie's subject is compared with that user; one-time values are consumed before the upgrade and expired ones refused. Structural, all paths, current source; not an enumeration of histories.",
          "Trusts the verifier libraries (u2f, webauthn, otp, vip, okta) and go-jose. Verifier table keyed by factor bit is part of the checker.", "DESIGN.md §3 C05"),
